@@ -705,6 +705,30 @@ func apiCases(quick bool) []protox.Case {
 		"{\"stream_name\":\"s\",\"port\":0}", "{\"stream_name\":\"s\",\"port\":-1}", "{\"stream_name\":\"s\",\"port\":70000}", "{\"stream_name\":\"s\",\"port\":\"x\"}", "{\"stream_name\":\"s\",\"port\":0,\"is_tcp_flag\":9,\"timeout_ms\":-5}", "{\"stream_name\":\"s\",\"port\":0,\"is_tcp_flag\":1}", "{\"stream_name\":\"s\",\"port\":0,\"debug_dump_packet\":\"/nonexistent/x\"}", "{\"stream_name\":\"../../x\",\"port\":0}",
 		"{\"ip\":\"1.2.3.4\",\"duration_sec\":1}", "{\"ip\":\"\",\"duration_sec\":-1}", "{\"ip\":5}", "{\"ip\":\"1.2.3.4\",\"duration_sec\":9223372036854775807}", "{\"ip\":\"1.2.3.4\",\"duration_sec\":1e400}",
 		strings.Repeat("[", 100000), strings.Repeat("{\"a\":", 100000), "{\"url\":\"" + strings.Repeat("x", 1000000) + "\"}", "\xff\xfe{}", "{\"url\":\"\\ud800\"}", "{\"url\":\"rtmp://h/live/s\"}{\"url\":1}", "{\"URL\":\"rtmp://h/live/s\"}", "{\"url\":\"rtmp://h/live/s\",\"url\":7}"}
+	// pull URLs: every arrangement of <= 5 items over {"/", "?", "a", "=", ":", "@"} after the authority, for
+	// rtmp and rtsp (the client sessions parse the URL again, in their own goroutine)
+	var pullBodies []string
+	{
+		var gen func(cur string, n int)
+		gen = func(cur string, n int) {
+			for _, scheme := range []string{"rtmp", "rtsp"} {
+				if quick && scheme == "rtsp" && n > 3 {
+					continue
+				}
+				pullBodies = append(pullBodies, fmt.Sprintf("{\"url\":\"%s://$W-origin:1935%s\",\"stream_name\":\"s\"}", scheme, cur))
+			}
+			if n == 5 {
+				return
+			}
+			for _, it := range []string{"/", "?", "a", "=", ":", "@"} {
+				if quick && n >= 4 && it != "?" && it != "/" {
+					continue
+				}
+				gen(cur+it, n+1)
+			}
+		}
+		gen("", 0)
+	}
 	paths := []string{"/api/ctrl/start_relay_pull", "/api/ctrl/stop_relay_pull", "/api/ctrl/kick_session", "/api/ctrl/start_rtp_pub", "/api/ctrl/add_ip_blacklist", "/api/stat/group", "/api/stat/all_group", "/api/stat/lal_info", "/lal.html", "/api/", "/api/ctrl/unknown", "/"}
 	for _, p := range paths {
 		for i, b := range bodies {
@@ -716,6 +740,9 @@ func apiCases(quick bool) []protox.Case {
 		for _, q := range []string{"", "?", "?stream_name=", "?stream_name=s", "?stream_name=s&stream_name=t", "?stream_name=%zz", "?stream_name=" + strings.Repeat("s", 70000), "?x"} {
 			cs = append(cs, mk("api", "GET "+p+q, "query", clip(q), nil, -1))
 		}
+	}
+	for _, b := range pullBodies {
+		cs = append(cs, mk("api", "/api/ctrl/start_relay_pull", "pull-url", clip(b), []byte(b), -1))
 	}
 	return cs
 }
@@ -730,6 +757,34 @@ func buildCases(quick bool) []protox.Case {
 	cs = append(cs, apiCases(quick)...)
 	cs = append(cs, clientCases(quick)...)
 	cs = append(cs, rtspAuthCases(quick)...)
+	cs = append(cs, hlsSubSessionCases(quick)...)
+	return cs
+}
+
+// hlsSubSessionCases: HLS sub-session mode. Every sequence of <= 4 steps over {G: playlist request
+// without a session id (answered with a redirect that carries one), Gs: playlist request with the id
+// obtained last, Ts: segment request with it, O: the same id from another address, B: the viewer's
+// address is black-listed, Bx: black-listed with an entry that has already expired}.
+func hlsSubSessionCases(quick bool) []protox.Case {
+	var cs []protox.Case
+	alpha := []string{"G", "Gs", "Ts", "O", "B", "Bx"}
+	maxL := 4
+	var rec func(cur []string)
+	rec = func(cur []string) {
+		if len(cur) > 0 {
+			cs = append(cs, mk("hlssub", "sub-session", "sequence", strings.Join(cur, " "), []byte(strings.Join(cur, " ")), -1))
+		}
+		if len(cur) == maxL {
+			return
+		}
+		for _, k := range alpha {
+			if quick && len(cur) == 3 && k != "Gs" && k != "Ts" {
+				continue
+			}
+			rec(append(append([]string{}, cur...), k))
+		}
+	}
+	rec(nil)
 	return cs
 }
 
